@@ -237,10 +237,8 @@ class Evaluate(FuncBase):
         ctx = Ctx(mode=mode, n=n, A=A, t=t, inputs=inputs, argorder=[], argspec=[selfspec, ('val', 't')])
         return st, pre, ctx
 
-    def posts(self, st, ret, c):
-        A, t, n = c.A, c.t, c.n
+    def point_spec(self, A, n, t, v, f, tag=''):
         X = A['x']
-        v, f = split(ret)
         if self.kind == 'pwc':
             left = lambda k: A['y'][k]            # value of piece k (both limits)
             right = left
@@ -249,13 +247,56 @@ class Evaluate(FuncBase):
             left = lambda k: A['y1'][k]           # limit at the left end of piece k
             right = lambda k: A['y2'][k]          # limit at the right end of piece k
             inside = lambda k: interp(X[k], X[k + 1], A['y1'][k], A['y2'][k], t)
-        out = [('finite', f), ('start', implies(cmp('==', t, X[0]), cmp('==', v, left(0)))),
-               ('end', implies(cmp('==', t, X[n]), cmp('==', v, right(n - 1))))]
+        out = [('finite' + tag, f), ('start' + tag, implies(cmp('==', t, X[0]), cmp('==', v, left(0)))),
+               ('end' + tag, implies(cmp('==', t, X[n]), cmp('==', v, right(n - 1))))]
         for k in range(1, n):
-            out.append(('breakpoint[%d]' % k, implies(cmp('==', t, X[k]), cmp('==', v, split(arith('*', HALF, arith('+', right(k - 1), left(k))))[0]))))
+            out.append(('breakpoint[%d]%s' % (k, tag), implies(cmp('==', t, X[k]), cmp('==', v, split(arith('*', HALF, arith('+', right(k - 1), left(k))))[0]))))
         for k in range(n):
-            out.append(('piece[%d]' % k, implies(band(cmp('<', X[k], t), cmp('<', t, X[k + 1])), cmp('==', v, split(inside(k))[0]))))
+            out.append(('piece[%d]%s' % (k, tag), implies(band(cmp('<', X[k], t), cmp('<', t, X[k + 1])), cmp('==', v, split(inside(k))[0]))))
         return out
+
+    def posts(self, st, ret, c):
+        if getattr(c, 'ts', None) is not None:
+            R_ = st.acc(ret)
+            out = [('shape', cmp('==', R_.n, len(c.ts)))]
+            for i, t in enumerate(c.ts):
+                if isinstance(R_.n, int) and i < R_.n:
+                    out += self.point_spec(c.A, c.n, t, R_[i], R_.fin(i), '@t%d' % i)
+            return out
+        v, f = split(ret)
+        return self.point_spec(c.A, c.n, c.t, v, f)
+
+
+class EvaluateSeq(Evaluate):
+    """__call__ with a LIST of times (vectorised path): every entry equals the single-time value"""
+
+    def setup(self, mode, size, values=None):
+        st = State()
+        n, m = size
+        rec, A = self.make_self(st, mode, n, values)
+        ts = [in_real('t%d' % i, values) for i in range(m)]
+        st.vars['t'] = list(ts)
+        X = A['x']
+        pre = self.wf(A, n) + [band(cmp('<=', X[0], t), cmp('<=', t, X[n])) for t in ts]
+        inputs, selfspec = self.self_inputs(A)
+        for i in range(m):
+            inputs['t%d' % i] = ('real', 't%d' % i)
+        ctx = Ctx(mode=mode, n=n, A=A, ts=ts, inputs=inputs, argorder=[], argspec=[selfspec, ('reallist', ['t%d' % i for i in range(m)])])
+        return st, pre, ctx
+
+
+class PwcEvalSeq(EvaluateSeq):
+    rel = 'pyspike/PieceWiseConstFunc.py'
+    cls = 'PieceWiseConstFunc'
+    fields = ('x', 'y')
+    kind = 'pwc'
+
+
+class PwlEvalSeq(EvaluateSeq):
+    rel = 'pyspike/PieceWiseLinFunc.py'
+    cls = 'PieceWiseLinFunc'
+    fields = ('x', 'y1', 'y2')
+    kind = 'pwl'
 
 
 class PwcEval(Evaluate):
@@ -381,4 +422,101 @@ class DiscSmooth(FuncBase):
                         need -= take
                 exp = arith('/', tot, cnt)
             out.append(('smoothed[%d]' % i, band(cmp('==', YP[i], split(exp)[0]), YP.fin(i))))
+        return out
+
+
+# =============================================================================================
+class History(Contract):
+    """C09 / C10 histories: drivers of pv/drivers.py over the real classes"""
+    rel = 'verif:pv/drivers.py'
+
+    def __init__(self, func, kind, config='fallback'):
+        self.func, self.kind, self.config = func, kind, config
+        self.vnames = ('y',) if kind == 'pwc' else ('y1', 'y2')
+
+    def setup(self, mode, size, values=None):
+        st = State()
+        inputs = {}
+        argspec = []
+
+        def arr(name, n):
+            a = in_array(st, name, n, mode, values)
+            st.vars[name] = a
+            inputs[name] = ('array', name, a.n)
+            argspec.append(('val', name))
+            return st.acc(a)
+
+        def real(name):
+            v = in_real(name, values)
+            st.vars[name] = v
+            inputs[name] = ('real', name)
+            argspec.append(('val', name))
+            return v
+        c = Ctx(mode=mode, inputs=inputs, argorder=[], argspec=argspec)
+        pre = []
+        if self.func.endswith('scale_then_eval'):
+            n, m = size
+            c.X = arr('x', n + 1)
+            c.Y = [arr(v, n) for v in self.vnames]
+            ts = [in_real('t%d' % i, values) for i in range(m)]
+            st.vars['ts'] = list(ts)
+            for i in range(m):
+                inputs['t%d' % i] = ('real', 't%d' % i)
+            argspec.append(('reallist', ['t%d' % i for i in range(m)]))
+            c.ts = ts
+            c.fac = real('fac')
+            pre = [spec.sorted_strict(c.X)] + [band(cmp('<=', c.X[0], t), cmp('<=', t, c.X[n])) for t in ts]
+        elif self.func.endswith('accumulate'):
+            n0, n = size
+            suffix0 = ['y0'] if self.kind == 'pwc' else ['y10', 'y20']
+            c.X0 = arr('x0', n0 + 1)
+            c.Y0 = [arr(v, n0) for v in suffix0]
+            c.X = arr('x', n + 1)
+            c.Y = [arr(v, n) for v in self.vnames]
+            c.fac = real('fac')
+            pre = [spec.sorted_strict(c.X0), spec.sorted_strict(c.X), cmp('==', c.X0[0], c.X[0]), cmp('==', c.X0[n0], c.X[n])]
+        else:
+            n = size[0]
+            c.X = arr('x', n + 1)
+            c.Y = [arr(v, n) for v in self.vnames]
+            c.fac = real('fac')
+            pre = [spec.sorted_strict(c.X)]
+        c.argspec = argspec
+        return st, pre, c
+
+    def posts(self, st, ret, c):
+        t_ = lambda v: split(v)[0]
+        if self.func.endswith('scale_then_eval'):
+            a, b, cc = (st.acc(r) for r in ret)
+            m = len(c.ts)
+            return [('shape', band(cmp('==', a.n, m), cmp('==', b.n, m), cmp('==', cc.n, m))),
+                    ('same_as_fresh_object', band(*[cmp('==', b[i], cc[i]) for i in range(min(m, b.n, cc.n))])),
+                    ('scaled', band(*[cmp('==', b[i], t_(arith('*', c.fac, a[i]))) for i in range(min(m, a.n, b.n))])),
+                    ('finite', band(*[band(a.fin(i), b.fin(i)) for i in range(min(m, a.n, b.n))]))]
+        if self.func.endswith('accumulate'):
+            nv = len(self.vnames)
+            out = []
+
+            def same_arr(a, b):
+                A_, B_ = st.acc(a), st.acc(b)
+                if isinstance(A_.n, int) and isinstance(B_.n, int) and A_.n != B_.n:
+                    return False
+                return band(cmp('==', A_.n, B_.n), *[cmp('==', A_[k], B_[k]) for k in range(min(A_.n, B_.n))])
+            for i in range(1 + nv):
+                out.append(('same_as_with_fresh_operands[%d]' % i, same_arr(ret[i], ret[1 + nv + i])))
+            fx = st.acc(ret[2 + 2 * nv])
+            out.append(('operand_x_unchanged', band(cmp('==', fx.n, c.X.n), *[cmp('==', fx[k], c.X[k]) for k in range(min(fx.n, c.X.n))])))
+            for i, Y in enumerate(c.Y):
+                fy = st.acc(ret[3 + 2 * nv + i])
+                out.append(('operand_values_unchanged[%d]' % i, band(cmp('==', fy.n, Y.n), *[cmp('==', fy[k], Y[k]) for k in range(min(fy.n, Y.n))])))
+            return out
+        # copy_independent
+        gx = st.acc(ret[0])
+        out = [('copy_x', band(cmp('==', gx.n, c.X.n), *[cmp('==', gx[k], c.X[k]) for k in range(min(gx.n, c.X.n))]))]
+        nv = len(self.vnames)
+        for i, Y in enumerate(c.Y):
+            gy = st.acc(ret[1 + i])
+            out.append(('copy_untouched_by_scaling_original[%d]' % i, band(cmp('==', gy.n, Y.n), *[cmp('==', gy[k], Y[k]) for k in range(min(gy.n, Y.n))])))
+            fy = st.acc(ret[1 + nv + i] if self.kind == 'pwl' else ret[3])
+            out.append(('original_scaled[%d]' % i, band(*[cmp('==', fy[k], t_(arith('*', Y[k], c.fac))) for k in range(min(fy.n, Y.n))])))
         return out
